@@ -485,16 +485,15 @@ Fixpoint cm_filter (x : cm) (s : sel) {struct x} : option cm * option cm :=
         | [] => ([], [])
         | (a, v) :: l' =>
             let '(sl, ul) := go l' in
-            let '(c, sub) := sel_match s a in
-            if c then
-              match v with
-              | CNode _ =>
-                  let '(sv, uv) := cm_filter v sub in
-                  (match sv with Some y => (a, y) :: sl | None => sl end,
-                   match uv with Some y => (a, y) :: ul | None => ul end)
-              | CLeaf _ => ((a, v) :: sl, ul)
-              end
-            else (sl, (a, v) :: ul)
+            let sub := snd (sel_match s a) in
+            match v with
+            | CNode _ =>
+                let '(sv, uv) := cm_filter v sub in
+                (match sv with Some y => (a, y) :: sl | None => sl end,
+                 match uv with Some y => (a, y) :: ul | None => ul end)
+            | CLeaf _ =>
+                if sel_unit sub then ((a, v) :: sl, ul) else (sl, (a, v) :: ul)
+            end
         end in
       match l with
       | [] => (None, None)
@@ -503,4 +502,22 @@ Fixpoint cm_filter (x : cm) (s : sel) {struct x} : option cm * option cm :=
           (match sl with [] => None | _ => Some (CNode sl) end,
            match ul with [] => None | _ => Some (CNode ul) end)
       end
+  end.
+
+(** Fn.merge without a check: union of keys, recursing into sub-maps present on
+    both sides, the second argument winning on leaves present in both. *)
+Fixpoint cm_merge (x y : cm) {struct x} : cm :=
+  match x, y with
+  | CNode lx, CNode ly =>
+      let fix go (lx : list (addr * cm)) : list (addr * cm) :=
+        match lx with
+        | [] => []
+        | (a, vx) :: lx' =>
+            (a, match lookup a ly with
+                | Some vy => match vx, vy with CNode _, CNode _ => cm_merge vx vy | _, _ => vy end
+                | None => vx
+                end) :: go lx'
+        end in
+      CNode (go lx ++ filter (fun p => negb (mem (fst p) lx)) ly)
+  | _, _ => y
   end.
